@@ -120,6 +120,292 @@ fn mk_builder(tcs: &[String], f: &Flags) -> RegExpBuilder {
     b
 }
 
+fn flag_names(f: &Flags) -> Vec<&'static str> {
+    let mut v = vec![];
+    if f.d { v.push("d") }
+    if f.nd { v.push("D") }
+    if f.s { v.push("s") }
+    if f.ns_ { v.push("S") }
+    if f.w { v.push("w") }
+    if f.nw { v.push("W") }
+    if f.rep { v.push("r") }
+    if f.ci { v.push("i") }
+    if f.cap { v.push("g") }
+    if f.esc { v.push("e") }
+    if f.verbose { v.push("x") }
+    if f.no_start { v.push("ns") }
+    if f.no_end { v.push("ne") }
+    if f.colour { v.push("c") }
+    v.push("mr");
+    v.push("ms");
+    v
+}
+
+fn apply_flag(b: &mut RegExpBuilder, name: &str, f: &Flags) {
+    match name {
+        "d" => { b.with_conversion_of_digits(); }
+        "D" => { b.with_conversion_of_non_digits(); }
+        "s" => { b.with_conversion_of_whitespace(); }
+        "S" => { b.with_conversion_of_non_whitespace(); }
+        "w" => { b.with_conversion_of_words(); }
+        "W" => { b.with_conversion_of_non_words(); }
+        "r" => { b.with_conversion_of_repetitions(); }
+        "i" => { b.with_case_insensitive_matching(); }
+        "g" => { b.with_capturing_groups(); }
+        "e" => { b.with_escaping_of_non_ascii_chars(f.sur); }
+        "x" => { b.with_verbose_mode(); }
+        "ns" => { b.without_start_anchor(); }
+        "ne" => { b.without_end_anchor(); }
+        "c" => { b.with_syntax_highlighting(); }
+        "mr" => { b.with_minimum_repetitions(f.mr); }
+        "ms" => { b.with_minimum_substring_length(f.ms); }
+        _ => panic!("flag"),
+    }
+}
+
+/// C10: one case through permutations, duplicates, repeated builds, clones, setter orders,
+/// interleaved builds and concurrent threads. Returns the variants whose output differs.
+fn perm_case(case: &Value) -> Value {
+    let tcs: Vec<String> = case["tcs"].as_array().unwrap().iter().map(str_of).collect();
+    let f = parse_flags(case);
+    let id = case["id"].as_u64().unwrap_or(0);
+    let base = match plain_build(&tcs, &f) {
+        Ok(o) => o,
+        Err(m) => return json!({"id": case["id"], "panic": m}),
+    };
+    let mut bad = vec![];
+    let mut variants = 0usize;
+    let mut check = |name: &str, out: Result<String, String>, want: &str| {
+        variants += 1;
+        match out {
+            Ok(o) if o == want => {}
+            Ok(o) => bad.push(json!({"variant": name, "out": cps(&o), "want": cps(want)})),
+            Err(m) => bad.push(json!({"variant": name, "panic": m})),
+        }
+    };
+    // list order and duplicates
+    let mut rev = tcs.clone();
+    rev.reverse();
+    check("reversed", plain_build(&rev, &f), &base);
+    let mut dup = tcs.clone();
+    dup.extend(tcs.iter().cloned());
+    check("duplicated", plain_build(&dup, &f), &base);
+    let mut sh = tcs.clone();
+    let mut x = id.wrapping_mul(6364136223846793005).wrapping_add(1442695040888963407);
+    for i in (1..sh.len()).rev() {
+        x = x.wrapping_mul(6364136223846793005).wrapping_add(1442695040888963407);
+        sh.swap(i, (x >> 33) as usize % (i + 1));
+    }
+    sh.push(tcs[0].clone());
+    check("shuffled+dup", plain_build(&sh, &f), &base);
+    // repeated build on the same builder and on a clone
+    let r = catch_unwind(AssertUnwindSafe(|| {
+        let mut b = mk_builder(&tcs, &f);
+        let first = b.build();
+        let mut c = b.clone();
+        let second = b.build();
+        let third = c.build();
+        (first, second, third)
+    }));
+    match r {
+        Ok((a, b2, c)) => {
+            check("build#1", Ok(a), &base);
+            check("build#2 same builder", Ok(b2), &base);
+            check("build on clone after build", Ok(c), &base);
+        }
+        Err(e) => check("repeated", Err(panic_msg(e)), &base),
+    }
+    // setter order reversed
+    let names = flag_names(&f);
+    let r = catch_unwind(AssertUnwindSafe(|| {
+        let mut b = RegExpBuilder::from(&tcs);
+        for n in names.iter().rev() {
+            apply_flag(&mut b, n, &f);
+        }
+        b.build()
+    }));
+    check("setters reversed", r.map_err(panic_msg), &base);
+    // interleaved builds: after every setter a build; each must equal a fresh build with the
+    // settings accumulated so far, the last one the base
+    let r = catch_unwind(AssertUnwindSafe(|| {
+        let mut b = RegExpBuilder::from(&tcs);
+        let mut outs = vec![];
+        for (k, n) in names.iter().enumerate() {
+            apply_flag(&mut b, n, &f);
+            let got = b.build();
+            let mut fresh = RegExpBuilder::from(&tcs);
+            for m in names.iter().take(k + 1) {
+                apply_flag(&mut fresh, m, &f);
+            }
+            outs.push((format!("interleaved after {}", n), got, fresh.build()));
+        }
+        outs
+    }));
+    match r {
+        Ok(outs) => {
+            for (name, got, want) in outs {
+                check(&name, Ok(got), &want);
+            }
+        }
+        Err(e) => check("interleaved", Err(panic_msg(e)), &base),
+    }
+    // concurrent builds
+    let outs: Vec<Result<String, String>> = std::thread::scope(|sc| {
+        let hs: Vec<_> = (0..8).map(|_| sc.spawn(|| plain_build(&tcs, &f))).collect();
+        hs.into_iter().map(|h| h.join().unwrap_or_else(|_| Err("thread panicked".into()))).collect()
+    });
+    for (k, o) in outs.into_iter().enumerate() {
+        check(&format!("thread {}", k), o, &base);
+    }
+    json!({"id": case["id"], "base": cps(&base), "variants": variants, "bad": bad})
+}
+
+/// C17: a sequence of wasm setter calls on the natively compiled src/wasm.rs (stub
+/// wasm_bindgen), compared with the library driven by the corresponding calls.
+fn wasm_case(case: &Value) -> Value {
+    use grex::wasm_native::RegExpBuilder as W;
+    use wasm_bindgen::JsValue;
+    let items: Vec<JsValue> = case["items"]
+        .as_array()
+        .unwrap()
+        .iter()
+        .map(|v| if v.is_array() { JsValue::Str(str_of(v)) } else { JsValue::Other })
+        .collect();
+    let strs: Vec<String> = case["items"].as_array().unwrap().iter().filter(|v| v.is_array()).map(str_of).collect();
+    let calls: Vec<(String, i64)> = case["calls"]
+        .as_array()
+        .unwrap()
+        .iter()
+        .map(|c| (c[0].as_str().unwrap().to_string(), c[1].as_i64().unwrap_or(0)))
+        .collect();
+    let r = catch_unwind(AssertUnwindSafe(|| {
+        let mut log: Vec<Value> = vec![];
+        let w = W::from(items.clone().into_boxed_slice());
+        let lib_possible = !strs.is_empty();
+        let mut w = match w {
+            Ok(w) => {
+                if !lib_possible {
+                    log.push(json!({"step": "from", "bad": "wasm accepted an empty list"}));
+                    return log;
+                }
+                w
+            }
+            Err(e) => {
+                let want = "No test cases have been provided for regular expression generation";
+                if lib_possible || e.as_string().as_deref() != Some(want) {
+                    log.push(json!({"step": "from", "bad": format!("threw {:?}", e)}));
+                }
+                return log;
+            }
+        };
+        let mut lib = RegExpBuilder::from(&strs);
+        // objects: index 0 is the original; every setter returns a clone that becomes a new object
+        let mut ws: Vec<W> = vec![];
+        let mut ls: Vec<RegExpBuilder> = vec![];
+        ws.push(w.clone());
+        ls.push(lib.clone());
+        let _ = (&mut w, &mut lib);
+        for (k, (name, arg)) in calls.iter().enumerate() {
+            let target = (*arg as usize >> 8) % ws.len();
+            let val = (*arg & 0xff) as u32;
+            let (wobj, lobj) = (&mut ws[target], &mut ls[target]);
+            let res: Result<Option<W>, JsValue> = match name.as_str() {
+                "withConversionOfDigits" => { lobj.with_conversion_of_digits(); Ok(Some(wobj.withConversionOfDigits())) }
+                "withConversionOfNonDigits" => { lobj.with_conversion_of_non_digits(); Ok(Some(wobj.withConversionOfNonDigits())) }
+                "withConversionOfWhitespace" => { lobj.with_conversion_of_whitespace(); Ok(Some(wobj.withConversionOfWhitespace())) }
+                "withConversionOfNonWhitespace" => { lobj.with_conversion_of_non_whitespace(); Ok(Some(wobj.withConversionOfNonWhitespace())) }
+                "withConversionOfWords" => { lobj.with_conversion_of_words(); Ok(Some(wobj.withConversionOfWords())) }
+                "withConversionOfNonWords" => { lobj.with_conversion_of_non_words(); Ok(Some(wobj.withConversionOfNonWords())) }
+                "withConversionOfRepetitions" => { lobj.with_conversion_of_repetitions(); Ok(Some(wobj.withConversionOfRepetitions())) }
+                "withCaseInsensitiveMatching" => { lobj.with_case_insensitive_matching(); Ok(Some(wobj.withCaseInsensitiveMatching())) }
+                "withCapturingGroups" => { lobj.with_capturing_groups(); Ok(Some(wobj.withCapturingGroups())) }
+                "withEscapingOfNonAsciiChars" => { lobj.with_escaping_of_non_ascii_chars(val != 0); Ok(Some(wobj.withEscapingOfNonAsciiChars(val != 0))) }
+                "withVerboseMode" => { lobj.with_verbose_mode(); Ok(Some(wobj.withVerboseMode())) }
+                "withoutStartAnchor" => { lobj.without_start_anchor(); Ok(Some(wobj.withoutStartAnchor())) }
+                "withoutEndAnchor" => { lobj.without_end_anchor(); Ok(Some(wobj.withoutEndAnchor())) }
+                "withoutAnchors" => { lobj.without_anchors(); Ok(Some(wobj.withoutAnchors())) }
+                "withMinimumRepetitions" => {
+                    let r = wobj.withMinimumRepetitions(val);
+                    if val > 0 { lobj.with_minimum_repetitions(val); }
+                    match r {
+                        Ok(x) => if val == 0 { Err(JsValue::from("accepted zero")) } else { Ok(Some(x)) },
+                        Err(e) => if val == 0 && e.as_string().as_deref() == Some("Quantity of minimum repetitions must be greater than zero") { Ok(None) } else { Err(e) },
+                    }
+                }
+                "withMinimumSubstringLength" => {
+                    let r = wobj.withMinimumSubstringLength(val);
+                    if val > 0 { lobj.with_minimum_substring_length(val); }
+                    match r {
+                        Ok(x) => if val == 0 { Err(JsValue::from("accepted zero")) } else { Ok(Some(x)) },
+                        Err(e) => if val == 0 && e.as_string().as_deref() == Some("Minimum substring length must be greater than zero") { Ok(None) } else { Err(e) },
+                    }
+                }
+                "build" => {
+                    let a = wobj.build();
+                    let b = lobj.build();
+                    if a != b {
+                        log.push(json!({"step": k, "call": "build", "bad": "outputs differ", "wasm": cps(&a), "lib": cps(&b)}));
+                    }
+                    Ok(None)
+                }
+                other => panic!("unknown wasm call {other}"),
+            };
+            match res {
+                Ok(Some(newobj)) => {
+                    let lclone = ls[target].clone();
+                    ws.push(newobj);
+                    ls.push(lclone);
+                }
+                Ok(None) => {}
+                Err(e) => log.push(json!({"step": k, "call": name, "bad": format!("{:?}", e)})),
+            }
+        }
+        // final: every object builds to the library's result for its ancestry
+        for (k, (wo, lo)) in ws.iter_mut().zip(ls.iter_mut()).enumerate() {
+            let a = wo.build();
+            let b = lo.build();
+            if a != b {
+                log.push(json!({"step": "final", "object": k, "bad": "outputs differ", "wasm": cps(&a), "lib": cps(&b)}));
+            }
+        }
+        log
+    }));
+    match r {
+        Ok(log) => json!({"id": case["id"], "bad": log}),
+        Err(e) => json!({"id": case["id"], "bad": [{"panic": panic_msg(e)}]}),
+    }
+}
+
+/// the effect of every library setter on the default configuration, as the compiled code sees it
+fn setters_dump() -> Value {
+    let names = ["d", "D", "s", "S", "w", "W", "r", "i", "g", "e", "x", "ns", "ne", "c", "mr", "ms"];
+    let mut out = serde_json::Map::new();
+    let tcs = vec!["a".to_string()];
+    let b0 = RegExpBuilder::from(&tcs);
+    out.insert("default".into(), json!(grex::verif::builder_state(&b0)));
+    for n in names {
+        for (sur, mr) in [(false, 3u32), (true, 5u32)] {
+            let f = Flags { sur, mr, ms: mr + 1, ..Default::default() };
+            let mut b = RegExpBuilder::from(&tcs);
+            apply_flag(&mut b, n, &f);
+            out.insert(format!("{n}:{sur}:{mr}"), json!(grex::verif::builder_state(&b)));
+        }
+    }
+    let mut b = RegExpBuilder::from(&tcs);
+    b.without_anchors();
+    out.insert("na".into(), json!(grex::verif::builder_state(&b)));
+    for (name, val) in [("mr", 0u32), ("ms", 0u32)] {
+        let r = catch_unwind(AssertUnwindSafe(|| {
+            let mut b = RegExpBuilder::from(&tcs);
+            if name == "mr" { b.with_minimum_repetitions(val); } else { b.with_minimum_substring_length(val); }
+        }));
+        out.insert(format!("{name}:zero"), json!(r.err().map(panic_msg)));
+    }
+    let r = catch_unwind(|| { let e: Vec<String> = vec![]; RegExpBuilder::from(&e); });
+    out.insert("from:empty".into(), json!(r.err().map(panic_msg)));
+    Value::Object(out)
+}
+
 fn cps(s: &str) -> Value {
     Value::Array(s.chars().map(|c| json!(c as u32)).collect())
 }
@@ -763,6 +1049,27 @@ fn main() {
                     writeln!(w, "{s}").unwrap();
                 }
             }
+        }
+        "perm" => {
+            for l in stdin.lock().lines() {
+                let l = l.unwrap();
+                if l.trim().is_empty() { continue; }
+                let case: Value = serde_json::from_str(&l).expect("case json");
+                let r = catch_unwind(AssertUnwindSafe(|| perm_case(&case)))
+                    .unwrap_or_else(|e| json!({"id": case["id"], "harness_panic": panic_msg(e)}));
+                writeln!(w, "{r}").unwrap();
+            }
+        }
+        "wasm" => {
+            for l in stdin.lock().lines() {
+                let l = l.unwrap();
+                if l.trim().is_empty() { continue; }
+                let case: Value = serde_json::from_str(&l).expect("case json");
+                writeln!(w, "{}", wasm_case(&case)).unwrap();
+            }
+        }
+        "setters" => {
+            writeln!(w, "{}", setters_dump()).unwrap();
         }
         "lines" => {
             // str::lines on each input (code point arrays), for validating the Coq model of lines
